@@ -8,6 +8,7 @@ import (
 	"io"
 	"math/rand"
 	"net"
+	"strings"
 	"sync"
 	"sync/atomic"
 	"testing"
@@ -119,6 +120,10 @@ func subneg(sup string) (b []byte, complete bool) {
 		return mk(1, []byte("secret"), []byte("alice")), true
 	case "caseUser":
 		return mk(1, []byte("Alice"), []byte("secret")), true
+	case "crossPair":
+		return mk(1, []byte("alice"), []byte("pa ss:%00x")), true
+	case "crossPair2":
+		return mk(1, []byte("bob"), []byte("secret")), true
 	}
 	return nil, false
 }
@@ -159,7 +164,12 @@ func readN(c net.Conn, n int, d time.Duration) []byte {
 func play(rw row, variant int, seed int64, stub net.Listener, stubHits *atomic.Int32) (int, int, bool, string) {
 	r := rand.New(rand.NewSource(seed))
 	cfg := &socks5.Config{HandshakeTimeout: 400 * time.Millisecond, AllowLoopbackDestination: true}
-	cfg.AuthOpts.IngressCredentials = creds[:rw.Creds]
+	if rw.Creds == 3 {
+		// configured, but no RFC 1929 message can carry a 256-byte password
+		cfg.AuthOpts.IngressCredentials = []socks5.Credential{{User: "alice", Password: strings.Repeat("x", 256)}}
+	} else {
+		cfg.AuthOpts.IngressCredentials = creds[:rw.Creds]
+	}
 	dialer := &recDialer{}
 	if rw.Place == "clientSide" {
 		cfg.UseProxy = true
